@@ -59,4 +59,12 @@ def arrayRun (N : Nat) (plan : Nat → ElemResult) : List Ev × ArrayOutcome :=
   | .err => (evs ++ g.dropEvents, .failed)         -- `?` returns, the guard is dropped
   | .panic => (evs ++ g.dropEvents, .unwound)      -- unwinding drops the guard
 
+/-- The same run when the destructor of element `j` unwinds while the guard releases the built
+prefix after an *error* return: `drop_in_place` on a slice goes on with the remaining elements (one
+unwinding destructor; a second one would abort the process), so the events are those of `arrayRun`
+and only the way the call ends differs. -/
+def arrayRunDropPanic (N : Nat) (plan : Nat → ElemResult) (j : Nat) : List Ev × ArrayOutcome :=
+  let r := arrayRun N plan
+  (r.1, if r.2 == .failed && r.1.contains (.dropElem j) then .unwound else r.2)
+
 end Borsh
